@@ -398,6 +398,47 @@ class SArray(SArrayBase):
     def argsort(self, kind=None):
         return argsort(self, kind=kind)
 
+    def to_numpy(self, *a, **k):
+        return self
+
+    def nonzero(self):
+        return (flatnonzero(self),)
+
+    def item(self, *a):
+        if len(self.items) == 1:
+            return self.items[0]
+        raise ValueError("can only convert an array of size 1 to a Python scalar")
+
+    def fill(self, v):
+        self.items[:] = [self._cast(v)] * len(self.items)
+
+    def take(self, idx):
+        return self[idx]
+
+    def searchsorted(self, v, side="left"):
+        return searchsorted(self, v, side)
+
+    def round(self, n=0):
+        raise Unsupported("array.round")
+
+    def argmin(self):
+        return argmin(self)
+
+    def clip(self, lo, hi):
+        return clip(self, lo, hi)
+
+    def __abs__(self):
+        return absolute(self)
+
+    def __rtruediv__(self, o):
+        return self._arith(o, lambda a, b: sdiv(a, b), rev=True, minkind="f")
+
+    def __mod__(self, o):
+        return self._arith(o, lambda a, b: a % b)
+
+    def __floordiv__(self, o):
+        return self._arith(o, lambda a, b: a // b)
+
     def argmax(self):
         return argmax(self)
 
@@ -511,7 +552,7 @@ def round_float32(x):
     recorded in the path notes of any run that reaches such a cast."""
     if not isinstance(x, Sym):
         f = float(x)
-        return Fraction(float(_np.float32(f))) if f == f and abs(f) != inf else x
+        return Fraction(float(_np.float32(f))) if f == f and builtins.abs(f) != inf else x
     ctx = core.Ctx.cur
     zx = core._z(x)
     k = z3.Int(ctx.fresh_name("f32"))
@@ -670,7 +711,7 @@ asarray = array
 
 def _py(v):
     if isinstance(v, float):
-        return Fraction(v) if v == v and abs(v) != inf else v
+        return Fraction(v) if v == v and builtins.abs(v) != inf else v
     return v
 
 
@@ -680,8 +721,22 @@ def arange(a, b=None, step=1):
     return SArray(list(range(int(a), int(b), int(step))), int64)
 
 
+def _shape1(n):
+    """(n,) -> n; a 2-d shape stays a tuple"""
+    if isinstance(n, (tuple, list)):
+        if len(n) == 1:
+            return n[0]
+        if len(n) == 2:
+            return (int(n[0]), int(n[1]))
+        raise Unsupported("array of %d dimensions" % len(n))
+    return n
+
+
 def ones(n, dtype=None):
     d = _dt(dtype) if dtype is not None else float64
+    n = _shape1(n)
+    if isinstance(n, tuple):
+        return SArray2([[_one(d)] * n[1] for _ in range(n[0])], d, n[1])
     return SArray([_one(d)] * int(n), d)
 
 
@@ -700,6 +755,9 @@ def empty(n, dtype=None):
 
 
 def full(n, v, dtype=None):
+    n = _shape1(n)
+    if isinstance(n, tuple):
+        return SArray2([[v] * n[1] for _ in range(n[0])], dtype, n[1])
     return SArray([v] * int(n), dtype)
 
 
@@ -851,7 +909,11 @@ def divide(a, b, out=None, where=True):
             if q is None:
                 raise Unsupported("np.divide(where=) without out")
             its.append(q)
-    return SArray(its, out.dtype if out is not None else float64)
+    if out is not None:
+        res = SArray(its, out.dtype)
+        out.items[:] = res.items  # numpy writes the quotient into `out` and returns it
+        return out
+    return SArray(its, float64)
 
 
 def argmax(a, axis=None):
@@ -1182,3 +1244,173 @@ def append(a, v):
 
 def dtype(t):
     return _dt(t)
+
+
+# ---------------------------------------------------------------------------
+# further idioms a refactoring of the code under test may use
+# ---------------------------------------------------------------------------
+def _arr(a):
+    return a if isinstance(a, (SArray, SArray2)) else array(a)
+
+
+def flatnonzero(a):
+    a = _arr(a)
+    return SArray([i for i, m in enumerate(a.items) if (m if isinstance(m, bool) else _truth(s_not(_eq(m, 0)) if not isinstance(m, SBool) else m))], int64)
+
+
+def nonzero(a):
+    return (flatnonzero(a),)
+
+
+def argwhere(a):
+    return SArray2([[i] for i in flatnonzero(a).items], int64, 1)
+
+
+def count_nonzero(a, axis=None):
+    a = _arr(a)
+    s = 0
+    for m in a.items:
+        s = (ite(m, 1, 0) if isinstance(m, SBool) else (int(m) if isinstance(m, bool) else ite(s_not(_eq(m, 0)), 1, 0) if isinstance(m, Sym) else int(m != 0))) + s
+    return _np.int64(s) if type(s) is int else s
+
+
+def lexsort(keys):
+    """last key is the primary one; stable"""
+    keys = [_arr(k) for k in keys]
+    n = len(keys[0])
+    order = []
+    for i in range(n):
+        pos = len(order)
+        while pos > 0:
+            j = order[pos - 1]
+            c = 0
+            for k in reversed(keys):
+                c = _lt3(k.items[i], k.items[j])
+                if c != 0:
+                    break
+            if c < 0:
+                pos -= 1
+            else:
+                break
+        order.insert(pos, i)
+    return SArray(order, int64)
+
+
+def isin(a, b, invert=False):
+    a = _arr(a)
+    vals = list(b.items) if isinstance(b, SArray) else list(b)
+    out = [s_or(*[_eq(x, v) for v in vals]) if vals else False for x in a.items]
+    if invert:
+        out = [s_not(x) for x in out]
+    return SArray(out, bool_)
+
+
+in1d = isin
+
+
+def setdiff1d(a, b):
+    a, b = _arr(a), _arr(b)
+    keep = [x for x in unique(a).items if not builtins.any(_truth(_eq(x, y)) for y in b.items)]
+    return SArray(keep, a.dtype)
+
+
+def array_equal(a, b):
+    a, b = _arr(a), _arr(b)
+    if len(a) != len(b):
+        return False
+    return _truth(s_and(*[_eq(x, y) for x, y in zip(a.items, b.items)]))
+
+
+def full_like(a, v, dtype=None):
+    return SArray([v] * len(a), _dt(dtype) if dtype is not None else a.dtype)
+
+
+def empty_like(a, dtype=None):
+    return zeros_like(a, dtype)
+
+
+def clip(a, lo, hi):
+    a = _arr(a)
+    return SArray([ite(x < lo, lo, ite(x > hi, hi, x)) if lo is not None and hi is not None else x for x in a.items], a.dtype)
+
+
+def abs(a):  # noqa: A001
+    if isinstance(a, SArray):
+        return SArray([ite(_num(x) < 0, -_num(x), _num(x)) for x in a.items], a.dtype)
+    return ite(a < 0, -a, a)
+
+
+absolute = abs
+
+
+def take(a, idx, axis=None):
+    return _arr(a)[idx]
+
+
+def repeat(a, n):
+    if isinstance(a, SArray):
+        return SArray([x for x in a.items for _ in range(int(n))], a.dtype)
+    return SArray([a] * int(n))
+
+
+def diff(a):
+    a = _arr(a)
+    return SArray([_num(y) - _num(x) for x, y in zip(a.items, a.items[1:])], a.dtype if a.dtype.kind != "b" else int64)
+
+
+def insert(a, pos, v):
+    a = _arr(a)
+    its = list(a.items)
+    its.insert(int(pos), v)
+    return SArray(its, a.dtype)
+
+
+def delete(a, pos):
+    a = _arr(a)
+    ps = {int(p) for p in (pos.items if isinstance(pos, SArray) else pos if isinstance(pos, (list, tuple)) else [pos])}
+    return SArray([x for i, x in enumerate(a.items) if i not in ps], a.dtype)
+
+
+def cumsum(a, dtype=None):  # noqa: F811
+    return _arr(a).cumsum()
+
+
+def invert(a):
+    return ~_arr(a)
+
+
+def sign(a):
+    a = _arr(a)
+    return SArray([ite(x > 0, 1, ite(x < 0, -1, 0)) for x in a.items], a.dtype)
+
+
+def stack(arrs, axis=0):
+    arrs = [_arr(a) for a in arrs]
+    if axis == 0:
+        return SArray2([list(a.items) for a in arrs], arrs[0].dtype)
+    return SArray2([[a.items[i] for a in arrs] for i in range(len(arrs[0]))], arrs[0].dtype, len(arrs))
+
+
+def column_stack(arrs):
+    return stack(arrs, axis=1)
+
+
+vstack = stack
+
+
+def atleast_1d(a):
+    return _arr(a) if isinstance(a, (SArray, list, tuple, _np.ndarray)) else SArray([a])
+
+
+def result_type(*a):
+    return float64
+
+
+def iinfo(t):
+    return _np.iinfo(_np.int64)
+
+
+def finfo(t):
+    return _np.finfo(_np.float64)
+
+
